@@ -1029,9 +1029,32 @@ def uf_family(run, r, n):
     return stats
 
 
+def translator_stage(run):
+    """The eval methods of the straight-line rules are translated to Gallina from the current source (c18_translate.py, fail
+    closed) and the soundness lemma of every translated rule is re-proved by coqc.  A proved (definition, library) pair is
+    remembered by its hash under work/gencache, so an unchanged rule costs nothing on the next run.  Returns the text of
+    the definitions (for the correspondence of the generated model with macro.eval)."""
+    import c18_translate as T
+    defs, failed, results = T.prove_rules(REPO, VERIF, os.path.join(run.wd, 'gen'), NCPU)
+    for rule, why in failed.items():
+        run.violation('proof', 'translator: eval of %s is outside the translated subset (%s)' % (rule, why[:200]),
+                      dict(theorem='gen_sound_' + rule, rule=rule, reason=why), failing_input=False)
+    bad = sorted(r for r, (st, _) in results.items() if st == 'FAILED')
+    for rule in bad:
+        run.violation('proof', 'the soundness lemma gen_sound_%s of the rule as translated from the current source no longer checks' % rule,
+                      dict(theorem='gen_sound_' + rule, rule=rule, definition=defs[rule], log=results[rule][1][-1500:]), failing_input=False)
+    run.cov['regenerated_model'] = dict(translator='harness/c18_translate.py (Python ast -> Gallina over AletheGen.v, fail closed)',
+                                        rules=len(T.RULES), translated=len(defs), untranslatable=sorted(failed),
+                                        lemmas_proved=sum(1 for st, _ in results.values() if st == 'proved'),
+                                        lemmas_cached=sum(1 for st, _ in results.values() if st == 'cached'), lemmas_failed=bad)
+    return defs
+
+
 def run_check(tier, seed):
     run = Run(PROP, 'proof', tier, seed)
     proof_stage(run, PROP)
+    gen_defs = translator_stage(run)
+    gexprs, gmeta = [], []
     basic.load_theory('logic_base')
     from smt.veriT import verit_macro  # noqa: registers the macros
     r = run.rng
@@ -1091,6 +1114,10 @@ def run_check(tier, seed):
                         mexprs.append('(match %s, %s with Some a, Some b => if pf_eqb a b then 1 else 0 | None, None => 1 | _, _ => 0 end)'
                                       % (call, gexp))
                         mmeta.append((rule, a2, p2, th, err))
+                        if rule in gen_defs:
+                            gexprs.append('(match gen_%s %s %s, %s with Some a, Some b => if pf_eqb a b then 1 else 0 | None, None => 1 | _, _ => 0 end)'
+                                          % (rule, g_list(ga), g_list(gp2), gexp))
+                            gmeta.append((rule, a2, p2, th, err))
                     except Exception as e:
                         run.stat('translate_exc:' + type(e).__name__)
                 if acc:
@@ -1132,6 +1159,17 @@ def run_check(tier, seed):
         seen_rules.add(rule)
         run.violation('correspondence', 'correspondence:C18/accept/%s: model and macro.eval disagree' % rule,
                       dict(correspondence='C18/accept/' + rule, args=[sstr(x) for x in a2], prevs=[sstr(p) for p in p2],
+                           impl=sstr(th) if th is not None else 'rejected (%s)' % err), failing_input=False)
+    gcodes = coq_eval_nats(run.wd, IMPORTS + ' AletheGen', gexprs, defs='\n'.join(gen_defs.values()), tag='gen', shard=400)
+    gdis = [m for m, c in zip(gmeta, gcodes) if c != 1]
+    run.cov['regenerated_model']['correspondence'] = dict(cases=len(gexprs), agree=len(gexprs) - len(gdis), disagree=len(gdis))
+    seen_rules = set()
+    for rule, a2, p2, th, err in gdis:
+        if rule in seen_rules:
+            continue
+        seen_rules.add(rule)
+        run.violation('correspondence', 'correspondence:C18/translated/%s: the rule as translated from the source and macro.eval disagree' % rule,
+                      dict(correspondence='C18/translated/' + rule, args=[sstr(x) for x in a2], prevs=[sstr(p) for p in p2],
                            impl=sstr(th) if th is not None else 'rejected (%s)' % err), failing_input=False)
     run.cov['search'] = dict(accepted_steps=len(exprs), valid=sum(1 for c in codes if c == 1),
                              rules_with_invalid_acceptance=sorted(bad))
